@@ -594,7 +594,12 @@ class Evaluator:
                     all(x is y for x, y in zip(cur.items[:n], lst.items[:n])):
                 delta = cur.items[n:]
                 del cur.items[n:]
-                cur.items.append(RepL(src, delta))
+                if len(delta) == 1 and isinstance(delta[0], AltL) and not delta[0].b:
+                    # `for x in xs: if c: acc.append(e)`  is the filtered repetition  [e for x in xs if c]
+                    fsrc = Src(src.base, src.var, list(src.filters) + [delta[0].cond], src.order)
+                    cur.items.append(RepL(fsrc, list(delta[0].a)))
+                else:
+                    cur.items.append(RepL(src, delta))
 
     def make_src(self, it: Any, target: ast.AST, fn: FuncInfo, name_hint: str = 'x') -> Optional[Src]:
         name = target.id if isinstance(target, ast.Name) else name_hint
@@ -888,6 +893,17 @@ class Evaluator:
         if isinstance(base, TObj):
             if attr in base.fields:
                 return base.fields[attr]
+            blk = base.fields.get('__block__')
+            if attr in ('lines', '_lines') and isinstance(blk, TBlock) and not blk.comment and \
+                    prog.is_subclass(base.cls.fq, 'dznpy.text_gen.TextBlock'):
+                # the line buffer of a natively modelled block: constant items are split into physical lines
+                flat = self.block_items(blk, depth)
+                if all(isinstance(x, TStr) for x in flat):
+                    out_lines = []
+                    for x in flat:
+                        out_lines.extend(self.split_lines(x))
+                    return TList(out_lines)
+                return TList(flat)
             m = prog.lookup_method(base.cls, attr)
             if m is not None and m.is_property:
                 return self.call_function(m, [], {}, depth + 1, self_val=base)
@@ -913,17 +929,44 @@ class Evaluator:
                 return TFunc(m, {})
         if isinstance(base, tuple) and base[0] == 'module':
             return self.from_symbol(prog.resolve_name(base[1], attr), attr, fn)
+        if isinstance(base, tuple) and base and base[0] == 'ext':
+            return ('ext', f'{base[1]}.{attr}')          # attribute of an external module (re.sub, os.path ...)
         if isinstance(base, tuple) and base and base[0] == 'nsids' and attr == 'items':
             return TList([lit(x) for x in base[1]])
         if isinstance(base, tuple) and base and base[0] == 'nsconcat' and attr == 'items':
             return self.opaque('items of a symbolic namespace concatenation')
         if isinstance(base, TBlock) and attr in ('lines', '_lines'):
+            flat = self.block_items(base, depth)
+            if all(isinstance(x, TStr) for x in flat):
+                out_lines = []
+                for x in flat:
+                    out_lines.extend(self.split_lines(x))
+                return TList(out_lines)
             return TList(base.items)
         if isinstance(base, (TStr, TList, TBlock)):
             return ('method', base, attr)
         if base is TNone:
             return self.opaque(f'attribute {attr} of None')
         return self.opaque(f'attribute {attr} of {type(base).__name__}')
+
+    @staticmethod
+    def split_lines(s: TStr) -> List[TStr]:
+        """Physical lines of a text: literal parts are split at '\n', other parts stay inside their line."""
+        lines: List[TStr] = []
+        cur = TStr()
+        for p_ in s.parts:
+            if isinstance(p_, Lit):
+                chunks = p_.text.split('\n')
+                for i, ch in enumerate(chunks):
+                    if i > 0:
+                        lines.append(cur)
+                        cur = TStr()
+                    cur = cur + lit(ch)
+            else:
+                cur = cur + TStr([p_])
+        if cur.parts or not lines:
+            lines.append(cur)
+        return lines
 
     @staticmethod
     def _cap_idiom(s: TStr) -> TStr:
@@ -1029,6 +1072,13 @@ class Evaluator:
 
     def group_lookup(self, gd: tuple, k: Any, fn: FuncInfo, depth: int) -> Any:
         _tag, seq, key = gd
+        if key == ('builtin', 'type'):
+            src = self.make_src(seq, ast.Name(id='item', ctx=ast.Store()), fn)
+            if src is None or not (isinstance(k, tuple) and k and k[0] == 'class'):
+                return self.opaque('groupby by type over ' + type(seq).__name__)
+            src.filters.append(Cond('isinstance', (src.var, k[1].name)))
+            src.order = 'partial:only the last run of consecutive elements with that key' + ('+' + src.order if src.order else '')
+            return TList([RepL(src, [src.var])])
         lam: ast.Lambda = key[1]
         params = [a.arg for a in lam.args.args]
         if len(params) != 1:
@@ -1252,9 +1302,18 @@ class Evaluator:
         if isinstance(callee, tuple) and callee[0] == 'ext':
             if callee[1] in ('copy.deepcopy', 'copy.copy') and args:
                 return args[0]
+            if callee[1] in ('re.sub', 're.escape') and all(isinstance(a, TStr) and a.is_const() for a in args) and not kwargs \
+                    and len(args) == (3 if callee[1] == 're.sub' else 1):
+                # constant folding of a pure library function over constant strings
+                import re as _re
+                try:
+                    return lit(getattr(_re, callee[1].split('.')[1])(*[a.const() for a in args]))
+                except _re.error:
+                    return self.opaque(f'{callee[1]} with an invalid pattern')
             if callee[1] == 'itertools.groupby' and args:
                 key = args[1] if len(args) > 1 else kwargs.get('key')
-                if isinstance(key, tuple) and key and key[0] == 'lambda' and isinstance(args[0], (Sym, TList)):
+                if isinstance(key, tuple) and key and (key[0] == 'lambda' or key == ('builtin', 'type')) and \
+                        isinstance(args[0], (Sym, TList)):
                     # groups of CONSECUTIVE elements with equal key
                     return ('groupby', args[0], key)
             return self.opaque(f'external call {callee[1]}')
@@ -1276,6 +1335,8 @@ class Evaluator:
         if name in ('list', 'tuple') and args:
             return args[0] if isinstance(args[0], TList) else TList(self.as_items(args[0]))
         if name == 'isinstance':
+            if len(args) == 2 and isinstance(args[0], Sym) and isinstance(args[1], tuple) and args[1] and args[1][0] == 'class':
+                return Cond('isinstance', (args[0], args[1][1].name))
             return Cond('opaque', ('isinstance',))
         if name in ('sorted', 'reversed') and args and not kwargs and isinstance(args[0], (Sym, TList)):
             return ('ordered', name, args[0])
